@@ -56,22 +56,31 @@ def _eval_backend(ctx, kind: str, sheet_names: list[str]):
         env = {"list_to_dicts": FuncVal(lt)}
         return it.call_function(fi, [], {"md_": "ignored"}, env, fi.node)
     if kind == "csv":
-        fi = repo.func("pyxform.xls2json_backends:csv_to_dict.process_csv_data")
-        fc = repo.func("pyxform.xls2json_backends:csv_to_dict.first_column_as_sheet_name")
         rows = []
         for n in sheet_names:
             rows += [[n], ["", "type", "name"], ["", "text", "q"]]
-        env = {"first_column_as_sheet_name": FuncVal(fc)}
-        return it.call_function(fi, [], {"rd": rows}, env, fi.node)
+        return csv_rows_to_dict(ctx, "C12", rows)
     raise AnalysisError("C12", f"unknown backend kind {kind}")
+
+
+def csv_rows_to_dict(ctx, rid, rows):
+    """csv_to_dict evaluated as a whole on already-split csv rows (the definition loader, the sniffer and csv.reader are
+    stubs): wherever its helpers live (nested or at module level), the result for these rows is what is judged."""
+    repo = ctx.repo
+    fn = ctx.func("pyxform.xls2json_backends:csv_to_dict", rid)
+    raw = b"survey,,,\n"
+    defn = Obj(None, {"data": Obj(None, {"getvalue": lambda i, a, k, n: raw}, name="bytesio"), "file_type": None, "file_path_stem": None}, name="definition")
+    it = ctx.interp(rid, hooks={"fnname:get_definition_data": lambda i, a, k, n: defn, "fnname:is_csv": lambda i, a, k, n: True,
+                                "ext:csv.reader": lambda i, a, k, n: [list(r_) for r_ in rows], "ext:io.StringIO": lambda i, a, k, n: "SIO"}, inline=lambda fi: True)
+    it.reset([])
+    return it.call_function(fn, ["ignored"], {}, None, fn.node)
 
 
 def spacer_column_obligations(ctx, r2, rid):
     """A column without a header (a spacer) between used columns: cells stay under THEIR header in every backend."""
     repo = ctx.repo
     ger = ctx.func("pyxform.xls2json_backends:get_excel_rows", rid)
-    pc = repo.func("pyxform.xls2json_backends:csv_to_dict.process_csv_data")
-    fc = repo.func("pyxform.xls2json_backends:csv_to_dict.first_column_as_sheet_name")
+    pc = ctx.func("pyxform.xls2json_backends:csv_to_dict", rid)
     lt = repo.func("pyxform.xls2json_backends:md_to_dict.list_to_dicts")
 
     def cell(v):
@@ -87,7 +96,7 @@ def spacer_column_obligations(ctx, r2, rid):
              ger.loc(), why_fail=repr(out_g)[:200])
     it.reset([])
     try:
-        res = it.call_function(pc, [], {"rd": [["survey"], ["", "type", "", "name", "label"], ["", "text", "junk", "q1", "L1"]]}, {"first_column_as_sheet_name": FuncVal(fc)}, pc.node)
+        res = csv_rows_to_dict(ctx, rid, [["survey"], ["", "type", "", "name", "label"], ["", "text", "junk", "q1", "L1"]])
         got_c = [{k: v for k, v in row_.items() if k != ""} for row_ in (res.get("survey") or [])]
     except Raised as e:
         got_c = f"raises {e.exc_name}"
@@ -216,14 +225,11 @@ def run(ctx):
     r2.check(out == [{"type": "text", "name": "q1"}, {}, {"type": "text", "name": "q2"}], "xls/xlsx:keeps blank rows", "a blank row inside the data stays as an empty row; trailing blanks are trimmed",
              ger.loc(), why_fail=repr(out))
     # csv
-    pc = repo.func("pyxform.xls2json_backends:csv_to_dict.process_csv_data")
-    fc = repo.func("pyxform.xls2json_backends:csv_to_dict.first_column_as_sheet_name")
-    it.reset([])
-    res = it.call_function(pc, [], {"rd": [["survey"], ["", "type", "name"], ["", "text", "q1"], ["", "", ""], ["", "text", "q2"]]}, {"first_column_as_sheet_name": FuncVal(fc)}, pc.node)
+    pc = ctx.func("pyxform.xls2json_backends:csv_to_dict", "C12.R2")
+    res = csv_rows_to_dict(ctx, "C12.R2", [["survey"], ["", "type", "name"], ["", "text", "q1"], ["", "", ""], ["", "text", "q2"]])
     r2.check(res.get("survey") == [{"type": "text", "name": "q1"}, {}, {"type": "text", "name": "q2"}], "csv_to_dict:keeps blank rows", "a blank row inside the data stays as an empty row (as xls/xlsx do)",
              pc.loc(), why_fail=repr(res.get("survey")))
-    it.reset([])
-    res = it.call_function(pc, [], {"rd": [["survey"], ["", " type ", "name"], ["", " text ", ""]]}, {"first_column_as_sheet_name": FuncVal(fc)}, pc.node)
+    res = csv_rows_to_dict(ctx, "C12.R2", [["survey"], ["", " type ", "name"], ["", " text ", ""]])
     r2.check(res.get("survey") == [{"type": "text"}] and res.get("survey_header") == [{"type": None, "name": None}], "csv_to_dict:strips cells, drops empty cells", "cell text is stripped and empty cells are omitted",
              pc.loc(), why_fail=repr(res))
     spacer_column_obligations(ctx, r2, "C12.R2")
@@ -465,7 +471,7 @@ def run(ctx):
                     attrs={"src": a[0], "read": lambda i2, a2, k2, n2: Sym("READ_BYTES", truthy=True, pytype=bytes)})
             created.append(s)
             return s
-        path_obj = lambda exists: Sym("PATH", truthy=True, pytype=IOObj, attrs={"is_file": lambda i, a, k, n: exists, "stem": "stemname", "suffix": ".xlsx", "name": "stemname.xlsx", "suffixes": [".xlsx"],
+        path_obj = lambda exists, sfx=".xlsx": Sym("PATH", truthy=True, pytype=IOObj, attrs={"is_file": lambda i, a, k, n: exists, "stem": "stemname", "suffix": sfx, "name": "stemname" + sfx, "suffixes": [sfx],
                                                                     "read_bytes": lambda i, a, k, n: Sym("FILE_BYTES", truthy=True, pytype=bytes)})
         for kind, exists in (("bytes", False), ("BytesIO", False), ("file", False), ("text", False), ("text", True)):
             it = ctx.interp("C12.R4", hooks={"ext:io.BytesIO": h_bytesio, "ext:pathlib.Path": lambda i, a, k, n, e=exists: path_obj(e),
@@ -491,16 +497,17 @@ def run(ctx):
 
         def h_sft(i, a, k, n):
             raise _R("ValueError", ("not a valid SupportedFileTypes",), n, ("ValueError", "Exception", "BaseException"))
-        it = ctx.interp("C12.R4", hooks={"ext:io.BytesIO": h_bytesio, "ext:pathlib.Path": lambda i, a, k, n: path_obj(True), "new:Definition": lambda i, a, k, n: dict(k), "new:SupportedFileTypes": h_sft})
-        it.reset([])
-        created.clear()
-        try:
-            d = it.call_function(gdd, [], {"definition": mk("text")}, None, gdd.node)
-            stem = d.get("file_path_stem") if isinstance(d, dict) else None
-            r4.check(stem == "stemname" and isinstance(d.get("data"), Sym), "get_definition_data[existing path, unrecognised suffix]:stem",
-                     "the fallback form name is the file stem whether or not the suffix is a recognised type hint", gdd.loc(), why_fail=repr(d))
-        except Raised as r:
-            r4.fail("get_definition_data[existing path, unrecognised suffix]", f"evaluates ({r.exc_name}{r.exc_args})", gdd.loc())
+        for sfx_ in (".xlsx", ".XLSX", ".Xls", ".data"):
+            it = ctx.interp("C12.R4", hooks={"ext:io.BytesIO": h_bytesio, "ext:pathlib.Path": lambda i, a, k, n, sfx_=sfx_: path_obj(True, sfx_), "new:Definition": lambda i, a, k, n: dict(k), "new:SupportedFileTypes": h_sft})
+            it.reset([])
+            created.clear()
+            try:
+                d = it.call_function(gdd, [], {"definition": mk("text")}, None, gdd.node)
+                stem = d.get("file_path_stem") if isinstance(d, dict) else None
+                r4.check(stem == "stemname" and isinstance(d.get("data"), Sym), f"get_definition_data[existing path, unrecognised suffix {sfx_}]:stem",
+                         "the fallback form name is the file stem whether or not the suffix is a recognised type hint, however it is capitalised", gdd.loc(), why_fail=repr(d))
+            except Raised as r:
+                r4.fail(f"get_definition_data[existing path, unrecognised suffix {sfx_}]", f"evaluates ({r.exc_name}{r.exc_args})", gdd.loc())
         # a str that names an existing file is that file, whatever the name looks like (commas or pipes in a file name
         # make it look like csv / Markdown text to the sniffers)
         for pname in ("Kenya, Nairobi, 2024, round 2, final.xlsx", "a|b|c|d|e|f.md", "plain.xlsx"):
